@@ -17,6 +17,9 @@ RULE = ('case = (persistent worker kind, 1-3 consecutive restarts, state before 
         'restart(timeout=0.5). Oracle: restart returns under the guard with is_alive() True, same name/userid, defaults still merged the same way, new id and old '
         'pid gone for process/remote kinds, call(x) right after restart returns the value for x (no stale result), wait() -> result counts only post-restart '
         'items; thread kind stuck in an uncooperative target: restart raises RuntimeError and the old thread is still the worker. '
+        'Two more case kinds: Pool.restart_workers(timeout) over 1-3 workers one of which may be a thread worker stuck in an exception-swallowing target (it may raise, but '
+        'the pool must still hold every worker, the unstoppable one included); restart(timeout) of a persistent remote worker whose parent-side forwarding thread is held '
+        'while it forwards the last result of the old incarnation (restart raises, or the new stream never shows that result). '
         'Non-trivial = state other than never-used; distinct = distinct case.')
 ASSUMPTIONS = ['restart(timeout=0.5) is used because the default None legitimately waits for an endless item', 'guard 40 s']
 SHRINK = 'none'
@@ -25,10 +28,13 @@ STATES = ['fresh', 'unread', 'queued', 'closed', 'error', 'killed', 'stuck']
 REQUIRED = {'quick': {'state:' + s_: 15 for s_ in STATES}, 'thorough': {'state:' + s_: 150 for s_ in STATES}}
 REQUIRED['quick']['pipe:supplied'] = 100
 REQUIRED['quick']['falsy_userid'] = 100
+REQUIRED['quick']['pool_with_unstoppable_worker'] = 20
+REQUIRED['quick']['forwarder_held'] = 20
+INJECT = True
 
 
 def examples(tier):
-    return 640 if tier == 'quick' else 4000
+    return 700 if tier == 'quick' else 4500
 
 
 def shards(tier):
@@ -36,15 +42,204 @@ def shards(tier):
 
 
 def strategy(tier):
-    return st.fixed_dictionaries({
+    plain = st.fixed_dictionaries({
         'kind': st.sampled_from(IC.PERSISTENT),
         'states': st.lists(st.sampled_from(STATES), min_size=1, max_size=3),
         'pipe': st.sampled_from(['own', 'supplied']),
         'userid': st.sampled_from([0, 4711, 4711, '', None]),
     })
+    # the way the Pool restarts: restart_workers() over 1-3 workers of which one may be a thread worker that cannot be stopped
+    pool = st.fixed_dictionaries({'pool_restart': st.just(True), 'workers': st.lists(st.sampled_from(['thread', 'process', 'stuck_thread', 'thread']), min_size=1, max_size=3),
+                                  'timeout': st.sampled_from([0.2, 0.5])})
+    # restart of a remote worker whose parent-side forwarding thread is held while it forwards the last result of the old incarnation
+    held = st.fixed_dictionaries({'held_forwarder': st.just(True), 'items': st.integers(1, 3), 'n_raw': st.integers(0, 30), 'timeout': st.sampled_from([0.2, 0.5])})
+    return st.one_of(plain, plain, plain, plain, plain, plain, pool, held)
+
+
+def run_pool_restart(case, ctx):
+    from pyworkers.pool import Pool
+    from pyworkers.worker import WorkerType
+    out = Out()
+    out.label('pool_restart_workers')
+    escape = os.path.join(ctx.scratch, IC.fresh_name(ctx, 'c17pool') + '.escape')
+    pool = Pool(vtargets.sq, name='c17pool')
+    stuck = None
+    site = 'pool.restart_workers'
+    try:
+        for k in case['workers']:
+            if k == 'stuck_thread' and stuck is None:
+                stuck = bounded(pool.add_worker, 25, WorkerType.THREAD, target=vtargets.swallow_everything)
+                stuck.enqueue(escape)
+                out.label('pool_with_unstoppable_worker')
+            else:
+                bounded(pool.add_worker, 25, WorkerType.THREAD if k != 'process' else WorkerType.PROCESS)
+        if stuck is not None:
+            time.sleep(0.1)
+        before = list(pool.workers)
+        out.nontrivial = True
+        try:
+            bounded(pool.restart_workers, 60, timeout=case['timeout'])
+            ret = 'returned'
+        except Blocked:
+            out.viol('restart_workers_blocked', site, '')
+            return out
+        except RuntimeError as e:
+            ret = 'RuntimeError'
+        except Exception as e:
+            ret = 'raised:' + type(e).__name__
+            out.viol('restart_workers_' + ret, site, repr(e)[:200])
+        after = list(pool.workers)
+        if stuck is not None:
+            site += ':unstoppable_thread_worker'
+            # the old incarnation cannot be stopped: raising is right, abandoning the running child is not - the pool must still know it
+            if ret == 'returned' and stuck.is_alive() and not os.path.exists(escape):
+                pass     # (a fresh live worker under the same object would have required stopping the old thread)
+            if not any(w is stuck for w in after):
+                out.viol('pool_abandoned_running_worker', site, f'restart_workers() -> {ret}; the worker that could not be stopped is no longer among pool.workers ({len(before)} -> {len(after)} workers)')
+        if len(after) != len(before):
+            out.viol('worker_count_changed_by_restart', site, f'{len(before)} -> {len(after)} (restart_workers {ret})')
+        if ret == 'returned':
+            dead = [w for w in after if not w.is_alive()]
+            if dead:
+                out.viol('restart_left_dead_worker', site, f'{len(dead)} of {len(after)} workers are not alive after restart_workers()')
+        out.obs = {'workers': case['workers'], 'restart_workers': ret, 'before': len(before), 'after': len(after)}
+    finally:
+        try:
+            open(escape, 'w').close()
+        except OSError:
+            pass
+        time.sleep(0.05)
+        try:
+            bounded(pool.terminate, 30, timeout=1)
+        except BaseException:
+            pass
+        if stuck is not None:
+            try:
+                bounded(stuck.terminate, 10, 1, False)
+            except BaseException:
+                pass
+        try:
+            os.unlink(escape)
+        except OSError:
+            pass
+    return out
+
+
+_front_cache = {}
+
+
+def run_held_forwarder(case, ctx):
+    import inject
+    from pyworkers.persistent_remote import PersistentRemoteWorker
+    out = Out()
+    out.label('held_forwarder')
+    items = list(range(10, 10 + case['items']))
+
+    def census_once():
+        name = IC.fresh_name(ctx, 'c17fc')
+        inject.arm(name + '.front', 'census')
+        w = bounded(PersistentRemoteWorker, 25, vtargets.echo2, name=name, args=['D0', 'D1'], host=IC.server(ctx).addr)
+        for x in items:
+            w.enqueue(x)
+        w.close()
+        bounded(w.wait, 25, 10)
+        tr = inject.trace(name + '.front')
+        inject.cleanup(name + '.front')
+        idx = [i for i, e in enumerate(tr) if e[1] == 'persistent_remote.py' and e[2] == '_fetch_results']
+        # the events of the last forwarded partial result: from the recv that returned it to the put into the results pipe
+        puts = [i for i in idx if 'child_end.put(result)' in _src(tr[i][1], tr[i][3])]
+        if not puts:
+            return []
+        last = puts[-1]
+        return [tr[i][0] for i in idx if last - 6 <= i <= last]
+    key = ('c17front', case['items'])
+    cand = ctx.data.setdefault('census', {}).get(key)
+    if cand is None:
+        prev = None
+        for _ in range(4):
+            cand = census_once()
+            if cand == prev:
+                break
+            prev = cand
+        ctx.data['census'][key] = cand
+    if not cand:
+        out.excluded = 'no landing point in the census of the forwarding thread'
+        return out
+    n = cand[case['n_raw'] % len(cand)]
+    name = IC.fresh_name(ctx, 'c17h')
+    inject.arm(name + '.front', 'pause', n)
+    site = 'p_remote:forwarding_thread_of_old_incarnation_held'
+    w = None
+    try:
+        w = bounded(PersistentRemoteWorker, 25, vtargets.echo2, name=name, args=['D0', 'D1'], host=IC.server(ctx).addr)
+        for x in items:
+            w.enqueue(x)
+        r = inject.wait_reached(name + '.front', 5.0)
+        if not r:
+            out.excluded = 'landing point not reached'
+            return out
+        out.label('forwarder_held')
+        out.nontrivial = True
+        old_child = w._child
+        try:
+            bounded(w.restart, 40, timeout=case['timeout'])
+            ret = 'returned'
+        except Blocked:
+            out.viol('restart_blocked', site, '')
+            return out
+        except RuntimeError:
+            ret = 'RuntimeError'       # "if the old incarnation cannot be stopped it raises"
+            out.label('restart_refused_old_incarnation_not_stopped')
+        except Exception as e:
+            ret = 'raised:' + type(e).__name__
+            out.viol('restart_' + ret, site, repr(e)[:200])
+        inject.release(name + '.front')
+        time.sleep(0.3)
+        if ret == 'returned':
+            out.label('restart_returned_with_forwarder_held')
+            if old_child is not None and old_child.is_alive() and old_child is not w._child:
+                time.sleep(0.5)
+            try:
+                v = bounded(w.call, 20, 777)
+                if v != ('r', 777, 'D1'):
+                    out.viol('stale_result_after_restart', site, f'call(777) right after restart() -> {v!r}: a result of the previous incarnation reached the new result stream')
+                if not bounded(w.wait, 20, 10) or w.result != 1:
+                    out.viol('counter_not_fresh_after_restart', site, f'result {w.result!r} after one post-restart item')
+            except Blocked:
+                out.viol('call_blocked_after_restart', site, '')
+            except Exception as e:
+                out.viol('call_after_restart_raised:' + type(e).__name__, site, repr(e)[:200])
+        out.obs = {'n': n, 'restart': ret, 'at': f"{r['file']}:{r['func']}:{r['line']}"}
+    finally:
+        inject.release(name + '.front')
+        inject.cleanup(name + '.front')
+        if w is not None:
+            try:
+                bounded(w.terminate, 10, timeout=1)
+            except BaseException:
+                pass
+    return out
+
+
+_srcs = {}
+
+
+def _src(fname, line):
+    if fname not in _srcs:
+        import pyworkers
+        try:
+            with open(os.path.join(os.path.dirname(pyworkers.__file__), fname)) as f:
+                _srcs[fname] = f.read().splitlines()
+        except OSError:
+            _srcs[fname] = []
+    return _srcs[fname][line - 1] if 0 < line <= len(_srcs[fname]) else ''
 
 
 def run_case(case, ctx):
+    if case.get('pool_restart'):
+        return run_pool_restart(case, ctx)
+    if case.get('held_forwarder'):
+        return run_held_forwarder(case, ctx)
     from pyworkers.utils import Pipe
     out = Out()
     kind = case['kind']
